@@ -58,7 +58,9 @@ with concurrent.futures.ThreadPoolExecutor(jobs) as ex:
             pass
         expect = ("caught" if meta.get("caught") else "missed-before") if kind == "seeded" else "quiet"
         flag = ""
-        if kind == "seeded" and meta.get("caught") and verdict != "caught":
+        if verdict == "patch-does-not-apply" and meta.get("obsolete"):
+            verdict = "obsolete (" + meta["obsolete"][:60] + "...)"
+        elif kind == "seeded" and meta.get("caught") and verdict != "caught":
             flag = "  <-- REGRESSION"
             bad = 1
         if kind == "benign" and verdict != "quiet":
